@@ -698,3 +698,11 @@ def w11(ctx):
 
 
 RULES.append(w11)
+
+
+@rule("GA", doc="census of the code under `if CHECKS`: the assertions compiled in by `--features checks` are the reviewed ones — a function whose assertion code calls something new carries a new or re-worded assertion, an obligation ('this always holds') the analysis cannot discharge")
+def ga(ctx):
+    C.ghost_census(ctx, ctx.lib())
+
+
+RULES.append(ga)
